@@ -8,6 +8,11 @@ theorem same_ok (s : St) : Same s s.ok ∧ s.ok.nconn = s.nconn := by
   · exact ⟨Same.refl s, rfl⟩
   · exact ⟨same_emit s _, rfl⟩
 
+@[simp] theorem halt_cb (s : St) (k : Kind) (c : Nat) (r : Int) : (s.cb k c r).halt = s.halt := rfl
+@[simp] theorem halt_pop (s : St) (k : Kind) : (s.pop k).2.halt = s.halt := by
+  cases k <;> simp only [St.pop] <;> split <;> rfl
+@[simp] theorem halt_connA (s : St) : (connA s).halt = s.halt := rfl
+
 /-- only the created bracket of `c` holds a reference -/
 def BrC (s : St) (c : Nat) : Prop :=
   ∀ i, Brs (s.conns i) = if i = c then (true, false, false) else (false, false, false)
@@ -43,9 +48,110 @@ theorem connAlloc_ok {s : St} (h : Core s) (hnb : NB s) (p : Entry × St)
   · by_cases hc : i = s.nconn + 1
     · subst hc; rw [hu.at_c]; exact hba
     · rw [hu.other i hc]; exact hnb i
-  · rw [← hp]; cases hk : (connA s).pop .accept; simp [St.cb, St.emit, St.upd]
-    have := congrArg (fun q => q.2.halt) hk
-    sorry
+  · rw [← hp]; simp
   · rw [hu.at_c]; exact hpha
+
+theorem same_connRejPost (s : St) (r : Int) :
+    Same s (connRejPost s r) ∧ (connRejPost s r).nconn = s.nconn := by
+  unfold connRejPost; split
+  · exact ⟨Same.refl s, rfl⟩
+  · exact ⟨(same_svcUnref s).trans (same_emit _ _), by simp⟩
+
+theorem same_connFin (s : St) (K c : Nat) : Same s (connFin s K c) ∧ (connFin s K c).nconn = s.nconn := by
+  unfold connFin; split
+  · exact ⟨Same.refl s, rfl⟩
+  · simp only []
+    split
+    · have h := same_ok { s.svcUnref with clients := (K, c) :: s.svcUnref.clients }
+      have h0 : Same s { s.svcUnref with clients := (K, c) :: s.svcUnref.clients } :=
+        (same_svcUnref s).trans ⟨rfl, rfl, rfl, rfl, rfl, rfl⟩
+      exact ⟨h0.trans h.1, by rw [h.2]; simp⟩
+    · have h := same_ok s.svcUnref
+      exact ⟨(same_svcUnref s).trans h.1, by rw [h.2]; simp⟩
+
+/-- accept refused: the initial reference goes, `destroyed` unless the application took a reference -/
+theorem connRej_ok {s : St} (h : Core s) (c : Nat) (hh : s.halt = false) (hnb : NB s)
+    (hph : (s.conns c).phase = .accepting) (r : Int) :
+    Core (connRejPost (exec FUEL (connRejPre s c) (.zero c)) r) ∧
+    NB (connRejPost (exec FUEL (connRejPre s c) (.zero c)) r) := by
+  obtain ⟨hp, hrc, hfr, h1, h2, h3⟩ := (h.inv.conn c).reject hph _ rfl
+  have he : connRejPre s c = s.upd c fun k => { k with phase := .rejected, rc := k.rc - 1, init := false } := by
+    unfold connRejPre
+    rw [dec_eq _ _ _ (by simpa using hh) (by simpa using hfr) (by simpa using hrc), upd_upd]
+  have hu := updOf_upd s c fun k => { k with phase := .rejected, rc := k.rc - 1, init := false }
+  have hi' := hu.inv h.inv hp (fun _ => by simp) (by simp)
+  have hn : (s.conns c).phase ≠ .none := by rw [hph]; simp
+  have hc1 : Core (connRejPre s c) := by rw [he]; exact h.updOf hu rfl hi' hn
+  have hnb1 : NB (connRejPre s c) := by
+    rw [he]; intro i
+    by_cases hc : i = c
+    · subst hc; simp only [upd_conns, ↓reduceIte]; rw [h3]; exact hnb i
+    · simp [hc]; exact hnb i
+  have hok : CallOk (connRejPre s c) (.zero c) := by rw [he]; simp [CallOk]
+  have hex := hc1.exec FUEL (.zero c) hok
+  have hsm := same_connRejPost (exec FUEL (connRejPre s c) (.zero c)) r
+  exact ⟨hex.1.same hsm.1 hsm.2, fun i => by rw [hsm.1.conns]; exact (hnb1.frame hex.2) i⟩
+
+/-- accepted: ACTIVE, in the list, temporary reference, connection_created invoked -/
+theorem connAct_ok {s : St} (h : Core s) (c : Nat) (hnb : NB s)
+    (hph : (s.conns c).phase = .accepting) (hnl : c ∉ s.list) :
+    Core (connActPre s c) ∧ BrC (connActPre s c) c ∧ (connActPre s c).halt = s.halt := by
+  have hbc := hnb c; simp [Brs] at hbc
+  obtain ⟨hp, hfr, h1, h2, h3, h4, h5⟩ := (h.inv.conn c).activate hph hbc.1 _ rfl
+  have hn : (s.conns c).phase ≠ .none := by rw [hph]; simp
+  have hle := h.le hn
+  have hi0 : Inv { s with list := c :: s.list } :=
+    ⟨h.inv.fix, h.inv.conn, fun x hx => by
+      rcases List.mem_cons.mp hx with hx | hx
+      · subst hx; show (s.conns x).phase ≠ .dead; rw [hph]; simp
+      · exact h.inv.lst x hx, h.inv.jnd, h.inv.job⟩
+  have hu : UpdOf { s with list := c :: s.list } c
+      ({ monitor .created 0 { s.conns c with st := .active, rc := (s.conns c).rc + 1, brCreated := true } with
+        created := true }) (connActPre s c) :=
+    ⟨by simp [connActPre, cb_eq], fun i hi => by simp [connActPre, cb_eq, hi], rfl, rfl, rfl, rfl, rfl⟩
+  have hi' := hu.inv hi0 hp (fun _ => by rw [h1]; simp) (by rw [h2])
+  refine ⟨⟨hi', fun i hi => ?_, ?_, fun x hx => ?_⟩, fun i => ?_, rfl⟩
+  · have hi2 : s.nconn < i := hi
+    rw [hu.other i (by omega)]; exact h.fresh i hi2
+  · show (c :: s.list).Nodup
+    exact List.nodup_cons.mpr ⟨hnl, h.nodup⟩
+  · have hx' : x ∈ c :: s.list := hx
+    show x ≤ s.nconn
+    rcases List.mem_cons.mp hx' with hx' | hx'
+    · subst hx'; exact hle
+    · exact h.bound x hx'
+  · by_cases hc : i = c
+    · subst hc; rw [hu.at_c, if_pos rfl]
+      exact Prod.ext h3 (Prod.ext (h4.trans hbc.2.1) (h5.trans hbc.2.2))
+    · rw [hu.other i hc]; simp [hc]; exact hnb i
+
+/-- created returned: ESTABLISHED unless dropped meanwhile, the temporary reference goes -/
+theorem connEst_ok {s : St} (h : Core s) (c : Nat) (hh : s.halt = false) (hb : BrC s c) (K : Nat) :
+    Core (connFin (exec FUEL (connEstPre s c) (.zero c)) K c) ∧
+    NB (connFin (exec FUEL (connEstPre s c) (.zero c)) K c) := by
+  have hbc := hb c; simp [Brs] at hbc
+  obtain ⟨hp, hrc, hfr, h1, hn, hd, h2, h3, h4, h5⟩ := (h.inv.conn c).establish hbc.1 _ rfl
+  have he : connEstPre s c = s.upd c fun k =>
+      { (if k.st = .active then { k with st := .established } else k) with
+        rc := (if k.st = .active then { k with st := .established } else k).rc - 1, brCreated := false } := by
+    unfold connEstPre
+    rw [dec_eq _ _ _ (by simpa using hh) (by simp; split <;> simpa using hfr) (by simp; split <;> simpa using hrc),
+      upd_upd]
+  have hu := updOf_upd s c fun k =>
+      { (if k.st = .active then { k with st := .established } else k) with
+        rc := (if k.st = .active then { k with st := .established } else k).rc - 1, brCreated := false }
+  have hi' := hu.inv h.inv hp (fun hx => by rw [h1]; exact h.inv.lst c hx) (by rw [h2])
+  have hc1 : Core (connEstPre s c) := by rw [he]; exact h.updOf hu rfl hi' hn
+  have hnb1 : NB (connEstPre s c) := by
+    rw [he]; intro i
+    by_cases hc : i = c
+    · subst hc; rw [hu.at_c]
+      exact Prod.ext h3 (Prod.ext (h4.trans hbc.2.1) (h5.trans hbc.2.2))
+    · rw [hu.other i hc]; have := hb i; simp [hc] at this; exact this
+  have hok : CallOk (connEstPre s c) (.zero c) := by
+    rw [he]; show _ ≠ _ ∧ _ ≠ _; rw [hu.at_c, h1]; exact ⟨hn, hd⟩
+  have hex := hc1.exec FUEL (.zero c) hok
+  have hsm := same_connFin (exec FUEL (connEstPre s c) (.zero c)) K c
+  exact ⟨hex.1.same hsm.1 hsm.2, fun i => by rw [hsm.1.conns]; exact (hnb1.frame hex.2) i⟩
 
 end QbVerif.IpcsLife
